@@ -329,7 +329,7 @@ def check_run(knobs, script, stats, log, seed_label):
           kind += ":overwritten-row"
       v = core.Violation("display-differs:%s:%s" % (md or "none", kind),
                          "frame %d (t=%s): reader shows %s\nreference shows %s\n%s" % (fmid, t, _show(g), _show(exp_cmp), text[:2500]))
-      if kind.endswith(":overwritten-row"):
+      if ":overwritten-row" in kind:
         # a separately classified defect class: note it and keep comparing the rest of the run
         if v.signature not in [x.signature for x in soft]:
           soft.append(v)
